@@ -34,6 +34,7 @@ package tls
 //@   requires walk: tppos(0) == 0 && forall j in 0..n: tppos(j+1) == tppos(j) + tphdr(tps[j]) + tpvlen(val(tps[j]))
 //@   note walk: tppos is an arbitrary function satisfying the recurrence of the entry offsets, so the clauses below hold for THE offsets of the concatenation (pattern documented in /verif/CONTRACTS.md)
 //@   note fits: ids or lengths above 2^62-1 make quicvarint.Append panic (refused, not truncated): outside this contract
+//@   ensures fresh: isnil(ret) || fresh(ret)
 //@   ensures total: len(ret) == tppos(n)
 //@   ensures idtag: forall j in 0..n: ret[tppos(j)] / 64 == tagbits(vlen(tpid(val(tps[j]))))
 //@   ensures id1: forall j in 0..n: vlen(tpid(val(tps[j]))) == 1 ==> ret[tppos(j)] == tpid(val(tps[j]))
